@@ -4,6 +4,7 @@ package c11
 import (
 	"fmt"
 	"sort"
+	"strings"
 	"testing"
 
 	"github.com/gdamore/tcell/v2"
@@ -21,11 +22,14 @@ func TestMain(m *testing.M) {
 	pbt.Main(m, "C11")
 }
 
-var entries = []string{"xterm", "xterm-256color", "linux", "rxvt-unicode", "screen", "st", "vt100", "vt220", "ansi", "sun", "wy60", "hpterm", "vt52", "konsole", "xterm-kitty", "aixterm"}
+var entries = []string{"xterm", "xterm-256color", "linux", "rxvt-unicode", "screen", "st", "vt100", "vt220", "ansi", "sun", "wy60", "hpterm", "vt52", "konsole", "xterm-kitty", "aixterm", "vt220+pastekeys", "ansi+pastekeys"}
 
 type entryInfo struct {
 	ti    *terminfo.Terminfo
 	paste bool
+	// some key sequence starts with ESC ESC: a lone ESC in front of another
+	// sequence is then ambiguous
+	escEsc bool
 	// a focus report that is a proper prefix of one of the entry's key
 	// sequences (rxvt: ESC [ O a = ctrl-up) is ambiguous when text follows
 	noFocusOut, noFocusIn bool
@@ -37,11 +41,18 @@ func info(name string) (*entryInfo, error) {
 	if e, ok := infos[name]; ok {
 		return e, nil
 	}
-	ti, err := terminfo.LookupTerminfo(name)
+	base := strings.TrimSuffix(name, "+pastekeys")
+	ti, err := terminfo.LookupTerminfo(base)
 	if err != nil {
 		return nil, fmt.Errorf("harness: %q: %v", name, err)
 	}
 	cp := *ti
+	if base != name {
+		// a description (not in the built-in database) that names its paste
+		// brackets but has no sequence to switch bracketed paste on
+		cp.Name = name
+		cp.PasteStart, cp.PasteEnd, cp.EnablePaste, cp.DisablePaste = "\x1b[200~", "\x1b[201~", "", ""
+	}
 	tbl, err := tcell.VerifKeyTable(&cp)
 	if err != nil {
 		return nil, fmt.Errorf("harness: %v", err)
@@ -49,7 +60,13 @@ func info(name string) (*entryInfo, error) {
 	_, p1 := tbl["\x1b[200~"]
 	_, p2 := tbl["\x1b[201~"]
 	e := &entryInfo{ti: &cp, paste: p1 && p2}
+	if base != name {
+		e.paste = true // the description says so; not taken from the library's own table
+	}
 	for k := range tbl {
+		if len(k) > 1 && k[:2] == "\x1b\x1b" {
+			e.escEsc = true
+		}
 		if len(k) > 3 && k[:3] == "\x1b[O" {
 			e.noFocusOut = true
 		}
@@ -73,6 +90,9 @@ type Case struct {
 	Items   []Item `json:"items"`
 	Paste   bool   `json:"paste"`
 	Cuts    []int  `json:"cuts"`
+	// EscFirst: a lone ESC keypress immediately in front of the paste: the
+	// bracket swallows the pending Alt prefix, the pasted text stays as it is
+	EscFirst bool `json:"esc_before_paste,omitempty"`
 }
 
 func (c Case) build() ([]byte, []inref.Ev, [][2]int, error) {
@@ -80,6 +100,9 @@ func (c Case) build() ([]byte, []inref.Ev, [][2]int, error) {
 	var want []inref.Ev
 	var spans [][2]int
 	if c.Paste {
+		if c.EscFirst {
+			data = append(data, 0x1b)
+		}
 		data = append(data, "\x1b[200~"...)
 		want = append(want, inref.Ev{Kind: "paste", Start: true})
 	}
@@ -211,6 +234,7 @@ func genCase(t *rapid.T) Case {
 		}
 	}
 	c.Paste = rapid.IntRange(0, 2).Draw(t, "paste") == 0
+	c.EscFirst = c.Paste && ei.paste && !ei.escEsc && rapid.IntRange(0, 3).Draw(t, "escfirst") == 0
 	data, _, _, _ := c.build()
 	if len(data) > 1 {
 		if rapid.IntRange(0, 4).Draw(t, "allcuts") == 0 {
@@ -463,5 +487,7 @@ func TestProp(t *testing.T) {
 	pbt.Check(t, "text", pbt.Pick(40000, 400000), pbt.Spec[Case]{Gen: genCase, Prop: prop, NonTrivial: nonTrivial, Classes: classes})
 	pbt.Check(t, "slow-typing", pbt.Pick(20, 300), pbt.Spec[SlowCase]{Gen: genSlow, Prop: slowProp})
 	pbt.Check(t, "live-text", pbt.Pick(150, 3000), pbt.Spec[LiveCase]{Gen: genLive, Prop: liveProp,
-		NonTrivial: func(c LiveCase) bool { return len(c.Runes) > 25 && len(c.PerRead) > 3 && c.Defer && csets.MultiByte(c.Charset) }})
+		NonTrivial: func(c LiveCase) bool {
+			return len(c.Runes) > 25 && len(c.PerRead) > 3 && c.Defer && csets.MultiByte(c.Charset)
+		}})
 }
